@@ -214,6 +214,11 @@ func judgeRange(w *proxyWorld, res *Result) {
 			if cr := ex.Hdr.Get("Content-Range"); cr != fmt.Sprintf("bytes */%d", size) {
 				res.violate("C07.c", "416-without-size: "+cls, "%s: 416 with Content-Range %q, expected bytes */%d [%s]", desc, cr, size, pd)
 			}
+			// "an If-Range that does not match the stored validator yields the full 200": the Range is
+			// then not looked at at all, whatever it says
+			if m := ifRangeMismatch(w, ex); m != "" {
+				res.violate("C07.d", "if-range-mismatch-answered-416: "+m, "%s: If-Range does not match the stored validator (%s) but the Range was evaluated and refused with 416 [%s]", desc, m, pd)
+			}
 		case 200:
 			res.Probes["range_200"]++
 			// "the full 200": the whole representation, and nothing that announces a slice
